@@ -97,6 +97,7 @@ class TracedIntegrationSolver(IntegrationSolver):
         n = self.problem.num_vars
         x1 = np.asarray(res.z[:n])
         ev = self._events or {"kinds": [], "firstDeciding": 0, "decided": 0, "trig": "none", "j": 0}
+        self._last_z = np.array(res.z, copy=True)
         self.raw.append(("int", {
             "result": res.status.name(), "freeBefore": _free(before), "freeAfter": _free(res.filter),
             "trig": ev["trig"], "j": ev["j"], "decided": ev["decided"], "firstDeciding": ev["firstDeciding"], "kinds": ev["kinds"],
@@ -154,6 +155,23 @@ def events_of(solver, result, problem, params):
     if status == "Optimal":
         kkt = oracle.kkt_classes(problem, None, params, result.x, result.y, result.d, rel_slack=1e-6)
     fin = bool(np.isfinite(result.x).all() and np.isfinite(result.y).all() and np.isfinite(result.d).all())
+    # recorded path (internal coordinates): one block of columns per integration, times never run backwards, the path ends
+    # at the point the loop ended with
+    path = {"has": False, "timesMonotone": True, "shapeOK": True, "endsAtLast": True, "startsAtZero": True}
+    if params.collect_path:
+        try:
+            P, T = np.asarray(result.path), np.asarray(result.model_times)
+            path["has"] = True
+            path["shapeOK"] = bool(P.ndim == 2 and T.ndim == 1 and P.shape[1] == T.shape[0] and P.shape[1] >= 1)
+            if path["shapeOK"]:
+                path["timesMonotone"] = bool((np.diff(T) >= 0).all())
+                path["startsAtZero"] = bool(T[0] == 0.0)
+                last = getattr(solver, "_last_z", None)
+                if last is not None:
+                    path["endsAtLast"] = bool((P[:, -1] == last).all())
+        except Exception:
+            path["shapeOK"] = False
     evs.append({"ev": "Return", "status": status, "iterations": int(result.iterations),
-                "limit": -1 if params.iteration_limit is None else int(params.iteration_limit), "kkt": kkt, "finite": fin})
+                "limit": -1 if params.iteration_limit is None else int(params.iteration_limit), "kkt": kkt, "finite": fin,
+                "path": path, "collectPath": bool(params.collect_path), "accepted": int(result.num_accepted_steps)})
     return evs
